@@ -209,7 +209,7 @@ DEFAULT = Spell()
 # what a comment may contain: anything
 COMMENT_TEXTS = ["note", "2*3 = 6", "** star **", "a, b; c", "say \"hi\" to 'c'", "// slashes", "/* opener", ".if 0", ".endif", "r16 = tmp + @0",
                  "label: nop", "trailing \\", "(unbalanced", "tab\there", "über µC", ".macro x", ".endm", "*", "x */* y", ";;;",
-                 "-" * 70, "=" * 140, "((( " * 30, "!~" * 40, "*" * 90, "+-" * 80 + " banner"]
+                 "parameters: @0 = port, @1 = value (@2 .. @9 may come later)", "-" * 70, "=" * 140, "((( " * 30, "!~" * 40, "*" * 90, "+-" * 80 + " banner"]
 
 
 def expr_text(a, sp):
